@@ -3,7 +3,7 @@
 The theorem being proved (C10/YpRoundSpec.v, YpRound*.v) says: for every abstract grammar `ag`
 and layout `lay` with `wf_agram k ag` and `wf_layout lay ag`
 
-    run_case true fa fp k (print lay ag) = Done (TResult (ast_of fa fp lay ag) [] (warnings_of fa fp lay ag))
+    run_case true fa fp fu k (print lay ag) = Done (TResult (ast_of fa fp lay ag) [] (warnings_of fa fp fu lay ag))
 
 for each of the three dialects k (Original, Grmtools: every rule block carries `-> type`; Eco: %implicit_tokens) and
 every declaration kind (%start %token %left/%right/%nonassoc %epp %avoid_insert %expect %expect-rr %actiontype
@@ -35,7 +35,9 @@ ACTION_SPAN_FIXED = False
 # /repo 69c4b9b (production span ends with the last item also before an action): the expected AST is computed with
 # fp = true and the mirror run in that variant; False = the pinned code (span up to the action's brace)
 PROD_SPAN_FIXED = True
-MODEL_FLAGS = " fc" + (" fa" if ACTION_SPAN_FIXED else "") + (" fp" if PROD_SPAN_FIXED else "")
+# /repo 4ff022d: %prec tokens of reachable productions count as used (YpModel.seen_prec; third digit of the c10round wire flags)
+PREC_USED_FIXED = True
+MODEL_FLAGS = " fc" + (" fa" if ACTION_SPAN_FIXED else "") + (" fp" if PROD_SPAN_FIXED else "") + (" fu" if PREC_USED_FIXED else "")
 
 QCH = {"b": "'", "s": "'", "d": '"'}          # YpPrint.qchar (QBare is mapped to the single quote)
 ALPHA_ = "abcdefghijklmnopqrstuvwxyzABCDEFGHIJKLMNOPQRSTUVWXYZ_"
@@ -456,9 +458,10 @@ def xs(s):
     return "x" + s.encode("utf-8").hex()
 
 
-def encode(fa, ag, lay, fp=None):
+def encode(fa, ag, lay, fp=None, fu=None):
     fp = PROD_SPAN_FIXED if fp is None else fp
-    w = [("1" if fa else "0") + ("1" if fp else "0"), str(len(ag["decls"]))]
+    fu = PREC_USED_FIXED if fu is None else fu
+    w = [("1" if fa else "0") + ("1" if fp else "0") + ("1" if fu else "0"), str(len(ag["decls"]))]
     for x in ag["decls"]:
         k = x[0]
         if k == "S":
@@ -1392,6 +1395,8 @@ def run_part(ctx, tag="C10round"):
         % ("true" if fa else "false", "has" if fa else "does not have"),
         "expected AST computed with fp = %s: /repo %s the production-span repair 69c4b9b (PROD_SPAN_FIXED in checks/c10_round.py)"
         % ("true" if PROD_SPAN_FIXED else "false", "has" if PROD_SPAN_FIXED else "does not have"),
+        "expected warnings computed with fu = %s: /repo %s the unused_symbols repair 4ff022d (PREC_USED_FIXED in checks/c10_round.py)"
+        % ("true" if PREC_USED_FIXED else "false", "has" if PREC_USED_FIXED else "does not have"),
     ]
 
 
@@ -1421,10 +1426,13 @@ def run_batch(ctx, rng, n, fa, exe, mirror, rexe, bad, first=()):
     model = core.run_lines([mirror], [l + MODEL_FLAGS for l in plines])
     # the statement for the other action-span variant (the theorem quantifies over fa): pairs with an action
     oth = [i for i, (ag, _) in enumerate(pairs) if any(pr["action"] is not None for _, ps, _ in ag["rules"] for pr in ps)]
-    oflags = " fc" + ("" if fa else " fa") + (" fp" if PROD_SPAN_FIXED else "")
-    ocoq = core.run_lines([rexe], [encode(not fa, *pairs[i]) for i in oth])
-    omodel = core.run_lines([mirror], [plines[i] + oflags for i in oth])
-    for i, oc, om in zip(oth, ocoq, omodel):
+    fuflag = " fu" if PREC_USED_FIXED else ""
+    oflags = " fc" + ("" if fa else " fa") + (" fp" if PROD_SPAN_FIXED else "") + fuflag
+    # (a statement about two extracted terms of the proved theorem, not about the implementation: quick tier = a sample, as for fp)
+    otha = oth[:ctx.n(1500, len(oth))]
+    ocoq = core.run_lines([rexe], [encode(not fa, *pairs[i]) for i in otha])
+    omodel = core.run_lines([mirror], [plines[i] + oflags for i in otha])
+    for i, oc, om in zip(otha, ocoq, omodel):
         ctx.count("statement_evaluated_for_other_fa")
         if " # " not in oc or oc.split(" # ", 1)[0] != coq[i].split(" # ", 1)[0] or om != oc.split(" # ", 1)[1]:
             bad["thm"] += 1
@@ -1436,7 +1444,7 @@ def run_batch(ctx, rng, n, fa, exe, mirror, rexe, bad, first=()):
                                          % (encode(not fa, *pairs[i]), plines[i] + oflags)}, no_input=True)
     # ... and for the other production-span variant (the theorem quantifies over fp): a sample of those pairs
     othp = oth[:500]
-    pflags = " fc" + (" fa" if fa else "") + ("" if PROD_SPAN_FIXED else " fp")
+    pflags = " fc" + (" fa" if fa else "") + ("" if PROD_SPAN_FIXED else " fp") + fuflag
     pcoq = core.run_lines([rexe], [encode(fa, pairs[i][0], pairs[i][1], not PROD_SPAN_FIXED) for i in othp])
     pmodel = core.run_lines([mirror], [plines[i] + pflags for i in othp])
     for i, oc, om in zip(othp, pcoq, pmodel):
@@ -1451,6 +1459,24 @@ def run_batch(ctx, rng, n, fa, exe, mirror, rexe, bad, first=()):
                            "differences_mirror_vs_expected": diff_sections(om, oc.split(" # ", 1)[-1]),
                            "replay_cmd": "echo '%s' | .work/ocaml/c10round/gvm_c10round ; echo '%s' | .work/ocaml/c10yp/gvm_c10yp"
                                          % (encode(fa, pairs[i][0], pairs[i][1], not PROD_SPAN_FIXED), plines[i] + pflags)}, no_input=True)
+    # ... and for the other unused_symbols variant (the theorem quantifies over fu): a sample of the pairs with a %prec
+    othu = [i for i, (ag, _) in enumerate(pairs) if any(pr["prec"] is not None for _, ps, _ in ag["rules"] for pr in ps)][:400]
+    uflags = " fc" + (" fa" if fa else "") + (" fp" if PROD_SPAN_FIXED else "") + ("" if PREC_USED_FIXED else " fu")
+    ucoq = core.run_lines([rexe], [encode(fa, pairs[i][0], pairs[i][1], None, not PREC_USED_FIXED) for i in othu])
+    umodel = core.run_lines([mirror], [plines[i] + uflags for i in othu])
+    for i, oc, om in zip(othu, ucoq, umodel):
+        ctx.count("statement_evaluated_for_other_fu")
+        if " # " in oc and oc.split(" # ", 1)[1] != expected[i]:
+            ctx.count("statement_for_other_fu_with_different_warnings")
+        if " # " not in oc or oc.split(" # ", 1)[0] != coq[i].split(" # ", 1)[0] or om != oc.split(" # ", 1)[1]:
+            bad["thm"] += 1
+            ctx.violation({"what": "ROUND-TRIP STATEMENT FALSE FOR THIS PAIR with fu = %s: the extracted mirror on (print lay ag) does not "
+                                   "return (ast_of fa fp lay ag) with (warnings_of fa fp fu lay ag) although wf_agram/wf_layout hold"
+                                   % ("false" if PREC_USED_FIXED else "true"),
+                           "pair": describe(*pairs[i]), "text": texts[i], "mirror": om[:3000], "expected": oc[:3000],
+                           "differences_mirror_vs_expected": diff_sections(om, oc.split(" # ", 1)[-1]),
+                           "replay_cmd": "echo '%s' | .work/ocaml/c10round/gvm_c10round ; echo '%s' | .work/ocaml/c10yp/gvm_c10yp"
+                                         % (encode(fa, pairs[i][0], pairs[i][1], None, not PREC_USED_FIXED), plines[i] + uflags)}, no_input=True)
     for (ag, lay), case, text, exp, pline, a, m in zip(pairs, cases, texts, expected, plines, impl, model):
         nprods = sum(len(ps) for _, ps, _ in ag["rules"])
         ctx.case(case, len(ag["decls"]) >= 2 and nprods >= 2, {"text": text[:400]})
